@@ -179,6 +179,25 @@ class Stream(Engine):
         # ---- carried: exact bytes
         try:
             obj = build()
+            pre = a.get('pre_use') or (None, 'stripped', 'weight', 'hash', None)[(len(want) + len(kind)) % 5]
+            if pre and kind in ('tx', 'mtx', 'block'):
+                # the object has been used before it is put on the wire: its witness-stripped form was
+                # taken, its weight computed, its identifiers asked for - none of that may change what
+                # serialize() emits afterwards
+                if pre == 'stripped':
+                    st = obj.serialize(dict(include_witness=False))
+                    want_st = RW.enc_tx(spec, False) if kind != 'block' else RW.enc_block(spec, False)
+                    ctx.check(st == want_st, 'C01.bytes', 'witness-stripped serialisation of a %s differs from the legacy wire format' % kind, field='stripped', **det)
+                elif pre == 'weight':
+                    if kind == 'block':
+                        obj.GetWeight()
+                    elif spec['vin'] and spec['vout']:       # calc_weight is documented for >= 1 input and output
+                        obj.calc_weight()
+                else:
+                    obj.GetHash()
+                    if kind != 'block':
+                        obj.GetTxid()
+                ctx.fault('used-before-serialising.' + pre)
             enc = obj.serialize()
         except Exception as e:
             ctx.check(False, 'C01.bytes', 'serialising a %s raised %s: %s' % (kind, type(e).__name__, e), **det)
